@@ -69,14 +69,37 @@ def install_crosshair_patches() -> None:
         return
     _patched = True
     try:
-        from crosshair import deep_realize, register_patch
+        from crosshair import NoTracing, realize, register_patch
         from pydantic_core import SchemaValidator
     except Exception:  # pragma: no cover - native replay without crosshair
         return
     _orig = SchemaValidator.validate_python
 
+    def _realize_keep_identity(x, depth=0):
+        """Realise CrossHair proxies inside plain containers; every other object (events, models, exceptions)
+        is passed through untouched so object identity is the same symbolically and natively."""
+        t = type(x)
+        if hasattr(t, "__ch_realize__"):
+            x = realize(x)
+            t = type(x)
+        if depth > 6:
+            return x
+        if t is dict:
+            return {_realize_keep_identity(k, depth + 1): _realize_keep_identity(v, depth + 1) for k, v in x.items()}
+        if t is list:
+            return [_realize_keep_identity(v, depth + 1) for v in x]
+        if t is tuple:
+            return tuple(_realize_keep_identity(v, depth + 1) for v in x)
+        if t is set:
+            return {_realize_keep_identity(v, depth + 1) for v in x}
+        return x
+
     def _validate_python(self, input, *a, **kw):  # noqa: A002
-        return _orig(self, deep_realize(input), *a, **kw)
+        with NoTracing():
+            input = _realize_keep_identity(input)
+            a = tuple(_realize_keep_identity(v) for v in a)
+            kw = {k: _realize_keep_identity(v) for k, v in kw.items()}
+        return _orig(self, input, *a, **kw)
 
     try:
         register_patch(SchemaValidator.validate_python, _validate_python)
